@@ -19,11 +19,16 @@
       decorrelate_scalar_subquery (453-580) with
       ensure_grouped_by_correlation (584-721)     → `groupedAgg` + `scalarLeftJoin`: Left join with the subquery's aggregate grouped by the
                                                      correlation column
+      add_semi_join_reduction (726-912)           → `reducedInput`
+    src/physical/operators/subquery.rs
+      execute_scalar over batches (277-292)       → `evalScalarB`;  results_array_from_scalars (1196-1256) → `typedFromFirst`
 
   One subquery result is a `Table` (list of rows) whose FIRST column is the value column; an outer row is a
   `Row`; a correlated subquery is "the inner table `S` restricted by a predicate `m l` of the outer row `l`".
 
-  Deviation switches (DESIGN §3.4); with all off this is the intended algorithm:
+  Deviation switches (DESIGN §3.4); with all off this is the intended algorithm.  Repaired in /repo meanwhile (switch no longer in
+  `Dev.current`, witness replayed from corpus/C23 on every run): notInPlainAnti 47485db, inSubquerySkipsNulls 08ac987,
+  scalarCountBug 51cab70, nonEqFilterFlipped 1caf07a, inDropsNonEqCorr + inDropsProjectedCorr 2272b7e.
     inSubquerySkipsNulls   — the row-by-row IN loop ignores NULL elements and answers FALSE for a NULL left operand
                              whatever `negated` is (subquery.rs:1268-1276); so `1 NOT IN {2, NULL}` is TRUE (must be NULL)
                              and `NULL [NOT] IN {…}` is FALSE (must be NULL, or FALSE/TRUE over the empty set).
@@ -87,8 +92,16 @@ deriving DecidableEq, Repr, Inhabited
 
 /-- the intended algorithm -/
 def Dev.none : Dev := {}
-/-- the unchanged tree -/
+/-- the tree as it is now: the switches of the defects repaired in /repo are off —
+    notInPlainAnti (47485db), inSubquerySkipsNulls (08ac987), scalarCountBug (51cab70), nonEqFilterFlipped (1caf07a),
+    inDropsNonEqCorr / inDropsProjectedCorr (2272b7e: the rule now declines the rewrite instead of losing a predicate).
+    `inSubqueryTypesLimited` is a refusal, not a wrong answer. -/
 def Dev.current : Dev :=
+  { corrScalarInSelectNull := true, corrErrorsSwallowed := true, inSubqueryTypesLimited := true,
+    scalarFirstBatchOnly := true, corrScalarFirstRowTyped := true, scalarReductionDup := true }
+
+/-- the tree before the `fix:` commits listed above -/
+def Dev.original : Dev :=
   { inSubquerySkipsNulls := true, notInPlainAnti := true, corrScalarInSelectNull := true,
     corrErrorsSwallowed := true, scalarCountBug := true, inSubqueryTypesLimited := true,
     nonEqFilterFlipped := true, inDropsNonEqCorr := true, inDropsProjectedCorr := true,
